@@ -202,6 +202,10 @@ def _gen_random(seed: int, k: int, cyclic: bool = False) -> Dict[str, str]:
             generic.add(name)
         s, _ = _class_src(name, bases, r)
         srcs[m] += s
+        if len(bases) >= 2 and r.random() < .4:
+            # a member of the class is named while the module is analysed (an alias): the lookup runs before any linearisation exists
+            mm = r.choice(MEMBERS)
+            srcs[m] += f'try:\n    early_{name}_{mm} = {name}.{mm}\nexcept AttributeError:\n    pass\n'
         where[name] = m
         mods[m].append(name)
         # the name a base was written with is rebound after the class statement (Python evaluated the bases when the
